@@ -65,6 +65,7 @@ __u32 ext2fs_crc32c_le(__u32 crc, unsigned char const *p, size_t len)
 static unsigned char vf_W[NW];
 static unsigned long long vf_wbase;
 static int vf_bm_obj, vf_bm_alloc, vf_bm_free;
+static int vf_light;	/* set (to a constant) by a harness for a phase in which header / superblock copies need not be modelled */
 static int vf_w_oob;	/* an id outside the window was used: asserted to be 0 at the end of each harness */
 
 int ext2fs_test_generic_bmap(ext2fs_generic_bitmap bm, __u64 arg)
@@ -147,7 +148,8 @@ static errcode_t stub_real_read_blk64(io_channel ch, unsigned long long block, i
 	if (count == -SUPERBLOCK_SIZE) {
 		PROP(ch->block_size == SUPERBLOCK_OFFSET && block == 1, "env: superblock is read at byte offset 1024");
 #ifndef VF_LIGHT_INDEX
-		memcpy(b, vf_sb, SUPERBLOCK_SIZE);
+		if (!vf_light)
+			memcpy(b, vf_sb, SUPERBLOCK_SIZE);
 #endif
 		vf_sb_reads++;
 		return 0;
@@ -270,7 +272,8 @@ static errcode_t stub_uf_write_blk64(io_channel ch, unsigned long long block, in
 		PROP(count == -(int) sizeof(struct undo_header), "env: the header is written with its exact size");
 		PROP(block == 0, "env: the header is written at the start of the undo file");
 #ifndef VF_LIGHT_INDEX
-		memcpy(vf_uf_hdr, b, sizeof(struct undo_header));
+		if (!vf_light)
+			memcpy(vf_uf_hdr, b, sizeof(struct undo_header));
 #else
 		/* STUB: (capture queries) only num_keys and fs_block_size of the header are recorded, the superblock copy is not modelled: the index format is the `index` harness's subject */
 		for (i = 8; i < 16; i++)
@@ -284,7 +287,8 @@ static errcode_t stub_uf_write_blk64(io_channel ch, unsigned long long block, in
 	if (VF_BUF_IS_SB(buf, count)) {
 		PROP(count == -SUPERBLOCK_SIZE, "env: the superblock copy is written with its exact size");
 #ifndef VF_LIGHT_INDEX
-		memcpy(vf_uf_sb, b, SUPERBLOCK_SIZE);
+		if (!vf_light)
+			memcpy(vf_uf_sb, b, SUPERBLOCK_SIZE);
 #endif
 		vf_uf_sb_blk = block;
 		vf_uf_sb_writes++;
